@@ -14,7 +14,7 @@ EXPLANATION = (
     "C05.2: assertion writer inserts exactly untagged(predicate)->untagged(object); reader builds Assertion::new(decode(key), "
     "decode(value)). C05.3: node writer emits [untagged(subject)] ++ untagged(assertions) in stored order; reader decodes "
     "element 0 as subject and the tail 1.. in order. C05.4: decoder accept values are constructor calls (digests recomputed). C05.5: the assertion-or-obscured predicate with which the decoder validates assertion slots has the expected table (Assertion / node over assertion; elided | encrypted | compressed subject), so everything the constructors can put into a slot is read back. C05.6: the writer's image lies in the reader's domain: every node the constructors build is non-empty, element-valid and without equal assertion digests (the C04.1/C04.3/C04.4 instances re-evaluated), because the reader refuses anything else. "
-    "C05.7: every public decode entry point (TryFrom<CBOR>, try_from_cbor, try_from_cbor_data) is the tag-checking decoder applied exactly once to the value. C05.8: no refusal of the decoder's own inside the arm of a known tag value. Does not decide dCBOR's own canonical round-trip of leaf values, nor the UR text codec.")
+    "C05.7: every public decode entry point (TryFrom<CBOR>, try_from_cbor, try_from_cbor_data) is the tag-checking decoder applied exactly once to the value. C05.8: no refusal of the decoder's own inside the arm of a known tag value, and none that hangs on a case / shape test of an element it has just decoded. Does not decide dCBOR's own canonical round-trip of leaf values, nor the UR text codec.")
 TRUSTED = ['dcbor: CBOR::to_tagged_value builds Tagged(tag, item); Map iterates in key order; CBOR::try_from_data accepts only dCBOR',
            'shape of dependency encoders is re-derived from the dcbor / bc-components MIR on every run']
 ALIASES = {('Tagged', 24): 'Leaf'}   # deprecated leaf tag #6.24 read as #6.201 (named in the property)
